@@ -15,6 +15,10 @@ class Boom(Exception):
     pass
 
 
+class Cancel(BaseException):
+    """an exit that is not an Exception subclass (KeyboardInterrupt-like)"""
+
+
 class ScratchSys:
     """snap = (wrapped items tuple, ops since the batch was opened (tuple) | None when closed, do_deletes)"""
 
@@ -34,7 +38,7 @@ class ScratchSys:
             out.append(((w, None, False), None))
         return out
 
-    def open_real(self, snap):
+    def open_real(self, snap, observe=False):
         w, ops, dd = snap
         d = LogDict(dict(w))
         s = ScratchDB(d)
@@ -44,8 +48,22 @@ class ScratchSys:
             cm.__enter__()
             d.frozen = True
             for op in ops:
+                if observe:
+                    self.look(s)
                 self.apply(s, op)
+            if observe:
+                self.look(s)
         return d, s, cm
+
+    def look(self, s):
+        """an observing caller: reads and membership tests of every key (results are judged in state_check; here they only
+        happen, on the object that goes on to perform the next operation)"""
+        for k in self.keys:
+            try:
+                s[k]
+            except KeyError:
+                pass
+            k in s  # noqa
 
     @staticmethod
     def apply(s, op):
@@ -85,7 +103,13 @@ class ScratchSys:
             for v in self.vals:
                 evs.append(("set", k, v))
             evs.append(("del", k))
-        evs += [("exit",), ("raise",)]
+        evs += [("exit",), ("raise",), ("cancel",)]
+        # a SECOND batch on the same ScratchDB object right after a normal exit
+        for dd2 in (False, True):
+            for k in self.keys:
+                evs.append(("exit2", dd2, (("del", k),)))
+                evs.append(("exit2", dd2, (("set", k, self.vals[0]),)))
+                evs.append(("exit2", dd2, (("set", k, self.vals[-1]), ("del", k))))
         return evs
 
     def step(self, snap, model, ev):
@@ -94,7 +118,7 @@ class ScratchSys:
         self.stats["ev:" + ev[0]] += 1
         if ev[0] == "open":
             return Step((w, (), ev[1]), (), viols)
-        d, s, cm = self.open_real(snap)
+        d, s, cm = self.open_real(snap, observe=True)
         if ev[0] in ("set", "del"):
             try:
                 self.apply(s, ev)
@@ -110,7 +134,7 @@ class ScratchSys:
         pre = d.plain()
         d.frozen = False
         d.reset_log()
-        if ev[0] == "exit":
+        if ev[0] in ("exit", "exit2"):
             try:
                 cm.__exit__(None, None, None)
             except Exception as e:  # noqa
@@ -126,13 +150,40 @@ class ScratchSys:
             if d.plain() != want:
                 viols.append(V("C17", "commit_wrong", "after a normal exit the wrapped database is not the buffer applied with last-write-wins "
                                "(deletes only if requested)", event="exit", field="wrapped", do_deletes=dd, buffer=buf, before=pre, got=d.plain(), want=want))
+            if ev[0] == "exit2" and not viols:
+                # same object, next batch: observe, operate, observe, commit
+                _, dd2, seq2 = ev
+                pre2 = d.plain()
+                self.look(s)
+                cm2 = s.batch_commit(do_deletes=dd2)
+                cm2.__enter__()
+                try:
+                    for op in seq2:
+                        self.look(s)
+                        self.apply(s, op)
+                    self.look(s)
+                    cm2.__exit__(None, None, None)
+                except Exception as e:  # noqa
+                    viols.append(V("C17", "commit_raised", f"a second batch on the same object raised {type(e).__name__}", event="exit2", exc=repr(e)[:120]))
+                    return Step(None, None, viols)
+                want2 = dict(pre2)
+                for k, v in self.buffer_of(seq2).items():
+                    if v is DEL:
+                        if dd2:
+                            want2.pop(k, None)
+                    else:
+                        want2[k] = v
+                if d.plain() != want2:
+                    viols.append(V("C17", "second_batch_wrong", "a second batch on the same ScratchDB object did not commit what it buffered",
+                                   event="exit2", field="wrapped", do_deletes=dd2, ops=seq2, before=pre2, got=d.plain(), want=want2))
         else:
-            exc = Boom("boom")
+            cancel = ev[0] == "cancel"
+            exc = Cancel("cancel") if cancel else Boom("boom")
             try:
-                r = cm.__exit__(Boom, exc, None)
+                r = cm.__exit__(type(exc), exc, None)
                 if r:
                     viols.append(V("C17", "exception_swallowed", "the exception that left the block was swallowed", event="raise"))
-            except Boom as e:
+            except (Boom, Cancel) as e:
                 if e is not exc:
                     viols.append(V("C17", "different_exception", "a different exception object was re-raised", event="raise"))
             except Exception as e:  # noqa
@@ -211,11 +262,19 @@ class ScratchSys:
         elif ev[0] == "exit":
             live["cm"].__exit__(None, None, None)
             live["ops"] = None
+        elif ev[0] == "exit2":
+            live["cm"].__exit__(None, None, None)
+            cm2 = s.batch_commit(do_deletes=ev[1])
+            cm2.__enter__()
+            for op in ev[2]:
+                self.apply(s, op)
+            cm2.__exit__(None, None, None)
+            live["ops"] = None
         else:
-            exc = Boom("boom")
+            exc = Cancel("cancel") if ev[0] == "cancel" else Boom("boom")
             try:
-                live["cm"].__exit__(Boom, exc, None)
-            except Boom:
+                live["cm"].__exit__(type(exc), exc, None)
+            except (Boom, Cancel):
                 pass
             live["ops"] = None
 
